@@ -49,7 +49,7 @@ pub fn run_check(replay: Option<Value>) -> i32 {
     let probs = problems();
     // span/7.02, span/12.05: with steps pinned at max_step the piece left for the last step is 2 % / 5 % of it
     let mss = ["span/3", "span/4", "span/pi", "1e-3*span", "inf", "none", "span/7.02", "span/12.05"];
-    let fss = ["none", "max_step/2", "max_step", "0.995*span (no finite max_step)"];
+    let fss = ["none", "max_step/2", "max_step", "0.995*span (no finite max_step)", "exactly the span (no finite max_step)"];
     let tols: Vec<f64> = if thorough { vec![1e-3, 1e-4, 1e-5, 1e-6, 1e-7, 1e-8, 1e-9, 1e-10] } else { vec![1e-4, 1e-8] };
     let dims = vec![
         dim("method", &M6.iter().map(|m| mname(*m)).collect::<Vec<_>>()),
@@ -82,6 +82,12 @@ pub fn run_check(replay: Option<Value>) -> i32 {
             0 => None,
             1 => Some(0.5 * ms_eff.min(span / 5.0)),
             2 => Some(ms_eff.min(span / 5.0)),
+            4 => {
+                if idx[3] != 4 && idx[3] != 5 {
+                    return None;
+                }
+                Some(*span)
+            }
             _ => {
                 // a first step just short of the interval (solvers that stretch a step by up to 1 % land on
                 // xend with it, the others take exactly this step)
